@@ -461,7 +461,10 @@ def run_corpus(ctx):
     files = sorted(f for f in os.listdir(d) if f.startswith("C13-") and f.endswith(".json")) if os.path.isdir(d) else []
     cases = []
     for k, f in enumerate(files):
-        c = dict(json.load(open(os.path.join(d, f)))["case"])
+        rec = json.load(open(os.path.join(d, f)))
+        if rec.get("status") == "known":
+            continue            # the replay of a known, timing-dependent finding: reject_race_probe looks for it
+        c = dict(rec["case"])
         c["id"] = 800000 + k
         c["_file"] = f
         cases.append(c)
